@@ -1,5 +1,7 @@
 SPECIFICATION Spec
 CONSTANT Points <- MCPoints
+CONSTANT South <- MCSouth
+CONSTANT Near <- MCNear
 CONSTANT MaxVals = 3
 INVARIANT TypeOK
 INVARIANT Shape
